@@ -298,6 +298,11 @@ func isValidCompositePart(re *syntax.Regexp) bool {
 		if len(re.Sub) != 1 || re.Flags&syntax.NonGreedy != 0 {
 			return false
 		}
+		// x{0} and x{0,0} match only the empty string, but a maximum of 0 is
+		// the searchers' encoding for "no upper bound": not representable.
+		if re.Max == 0 {
+			return false
+		}
 		return re.Sub[0].Op == syntax.OpCharClass
 
 	case syntax.OpCharClass:
